@@ -2,11 +2,13 @@
 open Model
 open Drv_core
 
-(* which model of the three places with a known defect: VERIF_C20_MODEL =
-   selected (default: Model/C20Config.v) | fixed | asis | vec (BA only: the
-   std::vector reference semantics vec_step) *)
+(* which model of the places with a known defect: VERIF_C20_MODEL =
+   selected (default: Model/C20Config.v) | fixed | fixedindex (every patch but
+   the unshare one) | asis | vec (BA only: the std::vector reference semantics
+   vec_step) *)
 let mode = try Sys.getenv "VERIF_C20_MODEL" with Not_found -> "selected"
-let the_cfg = match mode with "fixed" -> cfg_fixed | "asis" -> cfg_asis | _ -> cfg_selected
+let cfg_fixed_index = { c_fix_cmp = true; c_fix_resize = true; c_fix_hex = true; c_fix_index = true; c_fix_leak = false }
+let the_cfg = match mode with "fixed" -> cfg_fixed | "fixedindex" -> cfg_fixed_index | "asis" -> cfg_asis | _ -> cfg_selected
 
 let chars_of_hex = bytes_of_hex
 (* a memory cell that was never written prints as "??" *)
@@ -50,12 +52,20 @@ let parse_op (t : string list) : op =
   | ["CLEAR"; v] -> OClear (n v)
   | ["PUSH"; v; value] -> OPush (n v, b value)
   | ["POP"; v] -> OPop (n v)
+  | ["SET2"; v; i; x; j; y] -> OSet2 (n v, n i, b x, n j, b y)
+  | ["SWAP"; v; i; j] -> OSwap (n v, n i, n j)
+  | ["GETHELD"; v; i; j] -> OGetHeld (n v, n i, n j)
+  | ["GETHELDC"; v; i; j] -> OGetHeldC (n v, n i, n j)
+  | ["HELDPOP"; v; i] -> OHeldPop (n v, n i)
+  | "DATAHELDCOPY" :: v :: w :: pos :: value :: _ -> ODataHeldCopy (n v, n w, n pos, b value)
+  | "DATAHELDASSIGN" :: v :: w :: pos :: value :: _ -> ODataHeldAssign (n v, n w, n pos, b value)
+  | "CDATAHELD" :: v :: i :: j :: value :: _ -> OCDataHeld (n v, n i, n j, b value)
   | [c; v; w] -> OCmp (cmpop c, n v, n w)
   | _ -> failwith "BA op"
 
 let show_result = function
   | RUnit -> "-" | RBool true -> "T" | RBool false -> "F" | RNat k -> string_of_int (int_of_nat k)
-  | RByte x -> hex_of_cells [x] | RBytes l -> "B:" ^ hex_of_cells l | RAny -> "*" | RPre -> "PRE"
+  | RByte x -> hex_of_cells [x] | RBytes l -> "B:" ^ hex_of_cells l | RAny -> "*" | RPre -> "PRE" | RUAF -> "UAF"
 
 let dump_full (st : state) : string =
   let h = st.heap_of and vs = st.vars_of in
@@ -67,8 +77,8 @@ let dump_full (st : state) : string =
     | Ptr i -> (match List.nth_opt h (int_of_nat i) with
         | Some (Some b) ->
           let sz = int_of_nat b.b_size in
-          Printf.sprintf "P%d/%d/%d/%d/%s" (first_with i) (int_of_nat b.b_ref) sz (int_of_nat b.b_cap)
-            (hex_of_cells (List.filteri (fun k _ -> k < sz) b.b_data))
+          Printf.sprintf "P%d/%d/%d/%d/%s%s" (first_with i) (int_of_nat b.b_ref) sz (int_of_nat b.b_cap)
+            (hex_of_cells (List.filteri (fun k _ -> k < sz) b.b_data)) (if b.b_leak then "/L" else "")
         | _ -> "DANGLING") in
   String.concat " " (Printf.sprintf "H=%d" live :: List.mapi (fun k s -> Printf.sprintf "%d=%s" k (slot s)) vs)
 
